@@ -140,6 +140,26 @@ Theorem C03_variable_uses : forall name v kind b tsp value dsp e,
        SDefinition dname dvar dkind dty' (plug_e e (SStatementExpression e sp0) C) dsp' :: post)) <> Ok tt.
 Proof. exact CallsDecl.C03_var_use_rejected. Qed.
 
+(* The same with a statement filler at statement positions of the context (plug_e e stm C puts e into an expression
+   hole and stm into a statement hole): the statement kinds of bad_stmt with literals or calls of f as operands,
+   `x: str = f(1)`, `loop f(1) do .. end`. *)
+Theorem C03_calls_stmt : forall name v kind dty nm params ps rb tsp body pure fsp dsp e stm,
+  annotated params ps -> (forall n b, nth_error ps n = Some b -> rigid_base b = true) -> rigid_base rb = true ->
+  bad_call v ps rb e -> bad_stmt_g (call_atom v rb) stm ->
+  forall pre mid post dname dvar dkind dty' (C : ectx) dsp' fuel vars,
+    typecheck fuel (mkResolved vars
+      (pre ++ SDefinition name v kind dty (EFunction nm params (TResolved rb tsp) body pure fsp) dsp :: mid ++
+       SDefinition dname dvar dkind dty' (plug_e e stm C) dsp' :: post)) <> Ok tt.
+Proof. exact CallsDecl.C03_calls_stmt_rejected. Qed.
+
+Theorem C03_variable_uses_stmt : forall name v kind b tsp value dsp e stm,
+  rigid_base b = true -> bad_expr_g (var_atom v b) e -> bad_stmt_g (var_atom v b) stm ->
+  forall pre mid post dname dvar dkind dty' (C : ectx) dsp' fuel vars,
+    typecheck fuel (mkResolved vars
+      (pre ++ SDefinition name v kind (TResolved b tsp) value dsp :: mid ++
+       SDefinition dname dvar dkind dty' (plug_e e stm C) dsp' :: post)) <> Ok tt.
+Proof. exact CallsDecl.C03_var_use_stmt_rejected. Qed.
+
 (* the local facts behind C03_calls, in any state in which the signature invariant holds *)
 Theorem C03_call_value_has_result_type : forall kinds g v ps rb,
   (forall n b, nth_error ps n = Some b -> rigid_base b = true) -> rigid_base rb = true ->
@@ -271,6 +291,8 @@ Print Assumptions C03_component_keeps_leaf_type.
 Print Assumptions C03_instance_keeps_leaf_components.
 Print Assumptions C03_calls.
 Print Assumptions C03_variable_uses.
+Print Assumptions C03_calls_stmt.
+Print Assumptions C03_variable_uses_stmt.
 Print Assumptions C03_call_value_has_result_type.
 Print Assumptions C03_placement_expr.
 Print Assumptions C03_propagation.
